@@ -44,6 +44,15 @@ def make_class(case, built):
             ns["__annotations__"] = ann
         return ns
     base = type("Base", (), members(case["base"])) if case["base"] else object
+    if case.get("base_is_dc") and case["base"]:
+        # the parent is a dataset class in its own right and is used before the child
+        base = datasetclass(base)
+        for o in (case["o1"], case["o2"]):
+            for op in (base.keys, base.explain, base.validate, base):
+                try:
+                    op(o)
+                except Exception:
+                    pass
     cls = type("DC", (base,), members(case["own"]))
     return datasetclass(cls)
 
@@ -200,9 +209,9 @@ def cases(draw):
         o2 = U.dotted_set(o1, draw(st.sampled_from(["S.X", "S.Y", "S.Z", "R.U.V", "R.K"])), draw(st.sampled_from([1, 2, "q", None, True])))
     else:
         o2 = U.dotted_del(o1, draw(st.sampled_from(["B", "S.Z", "T", "A", "S.X"])))
-    return {"defs": g.defs, "own": own, "base": base, "o1": o1, "o2": o2, "relation": relation}
+    return {"defs": g.defs, "own": own, "base": base, "o1": o1, "o2": o2, "relation": relation, "base_is_dc": draw(st.booleans())}
 
 
 PARTS = [
-    Part("classes", check, strategy=lambda ctx: cases(), budget={"quick": 300, "thorough": 4000}),
+    Part("classes", check, strategy=lambda ctx: cases(), budget={"quick": 900, "thorough": 4000}),
 ]
